@@ -99,6 +99,14 @@ def handle : List String → String
       | some n => toString n
       | none => "none"
     | _ => "bad-tree"
+  | "maker" :: kinds :: recs :: toks =>
+    -- ONE LocationMaker over the records `hex,hex,…`: the size it computes for each
+    match parseItem toks with
+    | some (it, []) =>
+      joinWith "," ((makerRun (parseDecode kinds) (emit it) [] ((recs.splitOn ",").map unhex)).2.map fun
+        | some n => toString n
+        | none => "none")
+    | _ => "bad-tree"
   | "rows" :: cap :: kinds :: file :: toks =>
     match parseItem toks with
     | some (it, []) =>
